@@ -250,6 +250,7 @@ func installCompleteness(p *Program, id string, root *ssa.Function) []Obligation
 	sp := NewSpace(atoms...)
 	a := NewAnalysis(p, sp)
 	applyConf := p.Func("(*Raft).applyConfiguration")
+	nextConfFn := p.Func("(*Raft).nextConfiguration")
 	a.Hook = func(a *Analysis, f *Frame, in ssa.Instruction, st State) State {
 		if s, name := raftFieldStore(in); s != nil && f.Parent == nil {
 			v := p.Canon(f, s.Val).S
@@ -265,8 +266,17 @@ func installCompleteness(p *Program, id string, root *ssa.Function) []Obligation
 			}
 			return st
 		}
+		// the snapshot's configuration is put in force: unconditionally, by nextConfiguration on a configuration decoded
+		// from request.Configuration in the handler itself. Going through applyConfiguration is not enough since D7's
+		// repair: it leaves a configuration with a greater index in force, and here that one came from the log that has
+		// just been discarded.
+		if c, ok := in.(*ssa.Call); ok && nextConfFn != nil && c.Common().StaticCallee() == nextConfFn && f.Parent == nil {
+			if decodedFromRequestConfiguration(p, f, c.Common().Args[1]) {
+				return sp.Assign(st, iConf, 1)
+			}
+		}
 		if c, ok := in.(*ssa.Call); ok && applyConf != nil && c.Common().StaticCallee() == applyConf && f.Parent == nil {
-			if p.Canon(f, c.Common().Args[1]).S == "p0.Configuration" {
+			if p.Canon(f, c.Common().Args[1]).S == "p0.Configuration" && !callsGuardedByIndex(p, applyConf, nextConfFn) {
 				return sp.Assign(st, iConf, 1)
 			}
 		}
@@ -890,4 +900,62 @@ func leaderResetsMatch(p *Program, id string) []Obligation {
 		out = append(out, ob)
 	}
 	return out
+}
+
+
+// decodedFromRequestConfiguration: v is &c where c was decoded (decodeConfiguration / DecodeConfiguration) from
+// request.Configuration.
+func decodedFromRequestConfiguration(p *Program, f *Frame, v ssa.Value) bool {
+	al, ok := v.(*ssa.Alloc)
+	if !ok || al.Referrers() == nil {
+		return false
+	}
+	for _, r := range *al.Referrers() {
+		st, ok := r.(*ssa.Store)
+		if !ok || st.Addr != ssa.Value(al) {
+			continue
+		}
+		src := st.Val
+		if ex, ok := src.(*ssa.Extract); ok {
+			src = ex.Tuple
+		}
+		c, ok := src.(*ssa.Call)
+		if !ok || !strings.HasSuffix(strings.ToLower(calleeName(c.Common())), "decodeconfiguration") {
+			continue
+		}
+		args := c.Common().Args
+		if len(args) > 0 && p.Canon(f, args[len(args)-1]).S == "p0.Configuration" {
+			return true
+		}
+	}
+	return false
+}
+
+// callsGuardedByIndex: fn calls target only under a comparison of configuration indexes (it may skip the call).
+func callsGuardedByIndex(p *Program, fn, target *ssa.Function) bool {
+	if fn == nil || target == nil {
+		return false
+	}
+	fr := NewRootFrame(fn)
+	for _, b := range fn.Blocks {
+		for _, in := range b.Instrs {
+			c, ok := in.(*ssa.Call)
+			if !ok || c.Common().StaticCallee() != target {
+				continue
+			}
+			for _, bb := range fn.Blocks {
+				iff, ok := bb.Instrs[len(bb.Instrs)-1].(*ssa.If)
+				if !ok || bb == b || !blockReaches(bb, b) {
+					continue
+				}
+				if bo, ok := iff.Cond.(*ssa.BinOp); ok {
+					x, y := p.Canon(fr, bo.X).S, p.Canon(fr, bo.Y).S
+					if (x == "r.configuration.Index" || y == "r.configuration.Index") && (!blockReaches(bb.Succs[0], b) && bb.Succs[0] != b || !blockReaches(bb.Succs[1], b) && bb.Succs[1] != b) {
+						return true
+					}
+				}
+			}
+		}
+	}
+	return false
 }
